@@ -564,6 +564,20 @@ def check_replies(ctx, mod, consts):
         ctx.check(ok and closed == quits, "reply/undeclared-error" if label == "undeclared error" else "reply/declared-error", q + f" | <{label}>",
                   f"a responder failing with a {label} produces {[(b.cls.name, dict(b.data)) for b in sent]!r} ({k}), connection closed: {closed}; expected one {boxcls} with ERROR=b'9', "
                   f"ERROR_CODE={code!r}" + (f", ERROR_DESCRIPTION={desc!r}" if desc else "") + f", connection closed: {quits}")
+    # the answer cannot be sent any more (connection lost / protocol switched meanwhile): dropped silently, not an unhandled error; anything else is reported
+    for exc, quiet in (("ConnectionLost", True), ("ProtocolSwitched", True), ("ZeroDivisionError", False)):
+        w = World(ctx, mod, consts)
+        disp = w.dispatcher()
+
+        def refuse(box, exc=exc):
+            raise Raised(exc, OpaqueInst(Opaque(exc)) if exc not in w.cls else Inst(w.cls[exc], args=()))
+        w.sender.returns["sendBox"] = PyFn(refuse, "sendBox")
+        w.responders[b"cmd"] = PyFn(lambda box, w=w: w.box({b"r": b"ok"}), "responder")
+        k, v = w.receive(disp, {COMMAND: b"cmd", ASK: b"5"})
+        unhandled = len(w.sender.called("unhandledError"))
+        ctx.check(k == "value" and (unhandled == 0) == quiet, "reply/emit-on-dead-connection", q + f" | sendBox raises {exc}",
+                  f"the answer to a question is ready but sendBox raises {exc}: ampBoxReceived {'returns' if k == 'value' else 'raises ' + str(v)} and unhandledError is called {unhandled} time(s); "
+                  + ("expected the box to be dropped silently" if quiet else "expected the error to be reported through unhandledError exactly once"))
     w = World(ctx, mod, consts)
     disp = w.dispatcher()
     k, v = w.receive(disp, {COMMAND: b"nosuch", ASK: b"3"})
@@ -980,6 +994,10 @@ def check(ctx):
 
 
 MUTANTS = [
+    Mutant("safe-emit-suppresses-only-protocol-switched", AMP, "        except (ProtocolSwitched, ConnectionLost):\n            pass\n", "        except ProtocolSwitched:\n            pass\n", expect_rule="reply/emit-on-dead-connection"),
+    Mutant("safe-emit-suppresses-everything", AMP, "        try:\n            aBox._sendTo(self.boxSender)\n        except (ProtocolSwitched, ConnectionLost):\n            pass\n",
+           "        with suppress(Exception):\n            aBox._sendTo(self.boxSender)\n", more=[(AMP, "from functools import partial\n", "from contextlib import suppress\nfrom functools import partial\n")],
+           expect_rule="reply/emit-on-dead-connection"),
     # a call made while the connection is going away fails through its Deferred; the reply formatters are total
     Mutant("sendbox-refuses-on-unconnected-flag", AMP, "        if self.transport is None:\n            raise ConnectionLost()\n", "        if self.transport is None or not self.transport.connected:\n            raise ConnectionLost()\n",
            expect_rule="send/connection-state-never-raises"),
@@ -1016,6 +1034,12 @@ MUTANTS = [
 ]
 
 SILENT = [
+    Silent("safe-emit-with-contextlib-suppress", AMP, "        try:\n            aBox._sendTo(self.boxSender)\n        except (ProtocolSwitched, ConnectionLost):\n            pass\n",
+           "        with suppress(ProtocolSwitched, ConnectionLost):\n            aBox._sendTo(self.boxSender)\n", more=[(AMP, "from functools import partial\n", "from contextlib import suppress\nfrom functools import partial\n")]),
+    Silent("safe-emit-with-private-contextmanager", AMP, "        try:\n            aBox._sendTo(self.boxSender)\n        except (ProtocolSwitched, ConnectionLost):\n            pass\n",
+           "        with _ignoringSendErrors():\n            aBox._sendTo(self.boxSender)\n",
+           more=[(AMP, "from functools import partial\n", "from contextlib import contextmanager\nfrom functools import partial\n"),
+                 (AMP, "class BoxDispatcher:\n", "@contextmanager\ndef _ignoringSendErrors():\n    try:\n        yield\n    except (ProtocolSwitched, ConnectionLost):\n        pass\n\n\nclass BoxDispatcher:\n")]),
     Silent("error-description-backslashreplace", AMP, '                    desc = desc.encode("utf-8", "replace")\n', '                    desc = desc.encode("utf-8", errors="backslashreplace")\n'),
     Silent("error-description-strict-with-fallback", AMP, '                    desc = desc.encode("utf-8", "replace")\n',
            '                    try:\n                        desc = desc.encode("utf-8")\n                    except UnicodeEncodeError:\n                        desc = desc.encode("utf-8", "replace")\n'),
